@@ -1,6 +1,9 @@
 package main
 
 import (
+	"context"
+	"path/filepath"
+	"time"
 	"encoding/json"
 	"fmt"
 	"os"
@@ -24,8 +27,29 @@ func runStructural(ld *Loaded, sf *SpecFile, prop string) []StructObl {
 	return append(out, runStructuralProp(ld, sf, prop)...)
 }
 
+var structTier, structVerifDir string
+
+// leanLemma: a lemma about the contracts themselves (not about code) that the SMT solvers are the wrong tool for,
+// checked by Lean 4 + Mathlib (thorough tier only: loading Mathlib takes about a minute).
+func leanLemma(name, file, what string) []StructObl {
+	if structTier != "thorough" {
+		return nil
+	}
+	ctx, cancel := context.WithTimeout(context.Background(), 15*time.Minute)
+	defer cancel()
+	out, err := exec.CommandContext(ctx, "lean", filepath.Join(structVerifDir, "lemmas", file)).CombinedOutput()
+	ok := err == nil && !strings.Contains(string(out), "error") && !strings.Contains(string(out), "sorry")
+	det := what + " (lean " + file + ": accepted, no sorry)"
+	if !ok {
+		det = what + ": lean did not accept " + file + ": " + trunc(string(out), 300)
+	}
+	return []StructObl{{Name: name, OK: ok, Detail: det}}
+}
+
 func runStructuralProp(ld *Loaded, sf *SpecFile, prop string) []StructObl {
 	switch prop {
+	case "C07":
+		return leanLemma("C07/meta/M2-list-enumerates-map", "M2.lean", "from N2, N3, N4: every record of the node map sits in some slot of the member list (pigeonhole), so Members() walks every record")
 	case "C15":
 		return writeSiteFrame(ld)
 	case "C13":
